@@ -421,6 +421,41 @@ pub fn run(o: &Opts) -> Report {
         if i < 2 { rep.sample(json!({"generated": format!("{gw}x{gh} {ft:?}"), "bytes": st.len()})); }
         one(&mut drv, &mut rep, &format!("generated:{gw}x{gh}"), &st, gw * gh <= 1200 && i % 3 == 0);
     }
+    // tie 2 for the op-level model of the pixel loop (LLoop.decode): transform-free generated
+    // streams; the real decoder (two buffer poisons) against the model run on the generator's
+    // operation list, and the model against its specification
+    let nloop = if o.thorough() { 4000 } else { 500 };
+    let mut lines = Vec::new();
+    let mut outs = Vec::new();
+    for i in 0..nloop {
+        let (gw, gh) = match i % 5 { 0 => (1 + rng.below(6) as u32, 1 + rng.below(6) as u32), 1 => (1 + rng.below(70) as u32, 1 + rng.below(3) as u32), _ => (1 + rng.below(36) as u32, 1 + rng.below(36) as u32) };
+        let (st, ft) = crate::vp8lgen::stream_opt(&mut rng, gw, gh, false);
+        let Some((cfg, ops)) = ft.trace else { continue };
+        for poison in [0u8, 0xa5] {
+            let mut buf = vec![poison; (gw * gh * 4) as usize];
+            let r = catch(|| hk::vp8l_decode(Cursor::new(&st[..]), gw, gh, false, &mut buf).map_err(|e| format!("{e:?}")));
+            let got = match r { Ok(Ok(())) => format!("ok {}/{}", fnv_bytes(FNV_INIT, &buf), buf.len()), Ok(Err(e)) => format!("err {e}"), Err(m) => format!("PANIC {m}") };
+            let pv = u32::from_be_bytes([poison, poison, poison, poison]);
+            lines.push(format!("lloop {cfg} {pv} {ops}"));
+            outs.push((got, hex(&st)));
+        }
+    }
+    let replies = ask_parallel(&o.drv, &lines, 8);
+    for ((line, (got, sthex)), reply) in lines.iter().zip(&outs).zip(&replies) {
+        rep.case(line, true);
+        rep.hit("pixel_loop_model_tie");
+        let m = reply.strip_prefix("M=").and_then(|r| r.split(" S=").next()).unwrap_or("?");
+        let sp = reply.split(" S=").nth(1).and_then(|r| r.split(" C=").next()).unwrap_or("?");
+        if !reply.ends_with("C=true") {
+            rep.disagree(Disagreement { case: line.clone(), got: reply.clone(), expected: "C=true".into(), class: "correspondence", obligation: "hypothesis of C01.loop_refines_spec (LLoop.cons: single-symbol groups carry only their literal; len, dist >= 1) holds for every generated valid stream".into(), detail: String::new() });
+        }
+        if m != sp {
+            rep.disagree(Disagreement { case: line.clone(), got: m.to_string(), expected: sp.to_string(), class: "correspondence", obligation: "theorem C01.loop_refines_spec instance: LLoop.decode = LLoop.specDecode".into(), detail: String::new() });
+        }
+        if got != m {
+            rep.disagree(Disagreement { case: format!("vp8l {sthex} looptie"), got: got.clone(), expected: m.to_string(), class: if got != sp { "violation" } else { "correspondence" }, obligation: "tie2: decode_image_data = LLoop.decode on the operations the stream encodes (and = the per-pixel specification)".into(), detail: line.chars().take(300).collect() });
+        }
+    }
     for (name, s) in crafted() {
         one(&mut drv, &mut rep, &name, &s, dims_of(&s).map(|(w, h)| w * h <= 2500).unwrap_or(false));
     }
